@@ -337,7 +337,7 @@ fn data_edits(d: &Value) -> Vec<Value> {
 
 // ---------------------------------------------------------------------------------------------
 
-fn world_candidates(w: &World, stage: usize, step_hint: u64) -> Vec<World> {
+pub fn world_candidates(w: &World, stage: usize, step_hint: u64) -> Vec<World> {
     let mut out = vec![];
     match stage {
         0 => {
@@ -522,6 +522,7 @@ pub fn match_known<'a>(known: &'a [KnownFinding], prop: &str, class: &str, tags:
             && (k.class_prefix.is_empty() || class.starts_with(&k.class_prefix))
             && (k.classes.is_empty() || k.classes.iter().any(|c| c == class))
             && !k.trigger.is_empty()
+            && k.source_regex.is_empty()
             && k.trigger.iter().all(|t| tags.contains(t))
             && k.locus_contains.iter().all(|l| locus.iter().any(|x| x == l))
             && (k.benign.is_empty() || tags.iter().all(|t| k.trigger.contains(t) || k.benign.contains(t)))
